@@ -42,6 +42,8 @@ func ModelStep(m *model.Model, op Op, id int) {
 	switch op.Kind {
 	case Set, SetReader, Create:
 		m.Write(modelActor(op.Actor), op.Key, id, false)
+	case CreateEnd:
+		m.Write(modelActor(op.Actor), op.Key, op.Ref, false)
 	case Delete:
 		m.Write(modelActor(op.Actor), op.Key, id, true)
 	case Begin:
